@@ -84,6 +84,10 @@ func concAlphabets(thorough bool) []concAlphabet {
 			Ops: []string{"h:A11r0g:500:ok", "h:A11r0b:500:ok", "h:A2sr0g:1000:ok", "h:A10r0g:500:ok", "c"}},
 		{Kind: "ampjit", Prefixes: [][]string{{}},
 			Ops: []string{"h:A10r0g:500:ok", "h:A11r0g:500:ok", "h:A2sr0g:1000:ok"}},
+		// KeysendHoldTime != 0: the just-in-time insert (outside the registry lock) creates a hold
+		// invoice; two links, SettleHodlInvoice and CancelInvoice race on it
+		{Kind: "kshold", Prefixes: [][]string{{}, {"h:Kr:1000:ok"}},
+			Ops: []string{"h:Kr:1000:ok", "h:Kr:500:ok", "s:r", "c", "r:1"}},
 	}
 	if thorough {
 		a = append(a,
@@ -272,7 +276,7 @@ func runSchedule(c concCase, sched []int, rep reporter, st *Stats, logf func(str
 						out.callErr = firstLine(err.Error())
 					}
 				case to.op == "s:r":
-					if err := s.reg.SettleHodlInvoice(bg, invPreimage); err != nil {
+					if err := s.reg.SettleHodlInvoice(bg, w.kind.rightPreimage()); err != nil {
 						out.callErr = firstLine(err.Error())
 					}
 				}
